@@ -634,6 +634,12 @@ func (c *compiler) compile(tok *token) []instruction {
 		var out []instruction
 		c.Begin()
 		defBlock := c.optimize(c.compileAll(tok.Tokens[switchDefault].Tokens))
+		for n, ins := range defBlock {
+			switch ins.Code {
+			case codeBreak:
+				defBlock[n].Code, defBlock[n].A = codeJump, reg(len(defBlock)-n-1)
+			}
+		}
 		c.End()
 		for i := len(tok.Tokens[switchCases].Tokens) - 1; i >= 0; i-- {
 			cs := tok.Tokens[switchCases].Tokens[i]
